@@ -224,6 +224,8 @@ def instantiate_plain(ad, did):
             d["gen_use"] = "<i32>"
         elif d["ty"] == "Point":
             d["inner"] = "Point"
+        elif d["ty"] == "Vec<u8>":
+            d["inner"] = "Vec<u8>"
         elif d["ty"] == "Gen<Point>":
             d["inner"] = "T"
             d["inner_use"] = "Point"
@@ -288,8 +290,11 @@ def any_inputs(d, rng, nrandom):
             vals.add((a, b))
             for c in E:
                 vals.add((a, b, c))
+    lo = 0 if d.get("ty") == "Vec<u8>" else -5
     for _ in range(nrandom):
-        vals.add(tuple(rng.randint(-5, 5) for _ in range(rng.randint(0, 5))))
+        vals.add(tuple(rng.randint(lo, 5) for _ in range(rng.randint(0, 5))))
+    if d.get("ty") == "Vec<u8>":
+        vals.add((0, 255, 128))
     return sorted(vals)
 
 
